@@ -105,6 +105,43 @@ def coord(tok):
     return float(tok)               # "nan", "inf", "-inf", decimal
 
 
+_SAFE = set("abcdefghijklmnopqrstuvwxyzABCDEFGHIJKLMNOPQRSTUVWXYZ0123456789_#")
+
+
+def enc(name):
+    """feature name -> protocol token: every character but ASCII letters, digits, '_', '#' as %<4 hex digits>"""
+    return "".join(ch if ch in _SAFE else "%%%04x" % ord(ch) for ch in name)
+
+
+def dec(tok):
+    out, i = [], 0
+    while i < len(tok):
+        if tok[i] == "%":
+            out.append(chr(int(tok[i + 1:i + 5], 16)))
+            i += 5
+        else:
+            out.append(tok[i])
+            i += 1
+    return "".join(out)
+
+
+# feature names that Track.__getitem__ would not read as a name: a key holding one of + - / * ^ > < ( ) = ' { is handed to
+# the expression evaluator, and the key is strip()ped first. getObsAnalyticalFeature / createAnalyticalFeature take any
+# string but the six built-in names. {a}, {b}: names of other features of the same track (or built-in names).
+EXOTIC = ["{a}-{b}", "{a}+{b}", "{a}*{b}", "{a}/{b}", "{a}^{b}", "{a}>{b}", "{a}<{b}", "{a}>={b}", "{a}=={b}", "{a}={b}",
+          "({a})", "{a}-1", "1-{a}", "{a}+1", "2*{a}", "-{a}", "{a}^2", "'{a}'", "{{{a}}}", "D{{{a}}}", "{a}>>1", "{a}-{a}",
+          " {a}", "{a} ", "\t{a}", "{a}\n", " {a} ", "{a} {b}", "{a},{b}", "{a};{b}", "{a}|{b}", "{a}.{b}", "{a}%{b}",
+          "{a}\u00e9", "{a}:{b}", "[{a}]", "{a}[0]", "{a} - {b}", "{a}_{b}", "{a}&{b}", "@{a}", "{a}?", "1", "1.0", "-1", " "]
+
+
+def exotic_name(rng, operands, taken=()):
+    for _ in range(20):
+        nm = rng.choice(EXOTIC).format(a=rng.choice(operands), b=rng.choice(operands))
+        if nm not in taken and nm not in VIRTUAL and nm not in BUILTIN:
+            return nm
+    return "marker"
+
+
 def limval(tok):
     """limit token -> the python number passed to split(): int when written without a point"""
     return float(tok) if ("." in tok or "e" in tok) else int(tok)
@@ -188,7 +225,7 @@ def parse_table(tok):
     out = []
     for e in tok.split(";"):
         nm, vs = e.split("=")
-        out.append([nm, [] if vs == "_" else vs.split(",")])
+        out.append([dec(nm), [] if vs == "_" else vs.split(",")])
     return out
 
 
@@ -214,6 +251,8 @@ class P(Prop):
         (M, "TV.C11.extract_inclusive", "Track.extract(a, b), 0 <= a <= b < size, is the run a..b with both ends"),
         (M, "TV.C11.extract_reversed_empty", "Track.extract(a, b) with a > b is the empty track, never an error"),
         (M, "TV.C11.split_indices", "split(track, [sorted in-range indices], limit): the runs i_k..i_{k+1} that are not short, len-1 of them when limit = 0"),
+        (M, "TV.C11.extract_any", "Track.extract(a, b) for any integers: IndexError iff some index of a..b is outside [-size, size); else b-a+1 observations, the j-th being track[a+j] (Python indexing)"),
+        (M, "TV.C11.split_indices_any", "split(track, <any index list>, limit): IndexError iff one of the ranges source[i]..source[i+1] leaves [-size, size); else the extracts that are not short, in order"),
         (M, "TV.C11.split_collection", "split_segmentation: the pieces in order are the tracks having a marked observation, each observation once, in order"),
         (M, "TV.C11.marker_and_ord", "AND mode, any scalar type with a total comparison: call succeeds and marker = 1 iff some tested non-NaN value exceeds its threshold"),
         (M, "TV.C11.marker_or_ord", "OR mode, same generality: marker = 1 iff every tested non-NaN value exceeds its threshold"),
@@ -245,13 +284,22 @@ class P(Prop):
         (M, "TV.C11.segmentation_track_typed", "segmentation_track for the operator-call model: tested features of any kind (built-in 'timestamp' included), typed against their thresholds"),
         (M, "TV.C11.segmentation_track_val", "the same on numbers and ObsTime objects: every tested feature holding values of the kind of its threshold (e.g. ['speed', 'timestamp'] against [5.0, ObsTime])"),
         (M, "TV.C11.segmentation_history_typed", "segmentation_history for the operator-call model, exceptions included"),
+        (M, "TV.C11.split_reads_named_column", "getObsAnalyticalFeature(source, i) finds the column stored under the whole string `source` (not stripped, not parsed), whatever other features exist and whatever their names are"),
+        (M, "TV.C11.split_track_frame", "split(track, source[, limit]) depends on the track only through its size and the column read under the name `source`"),
+        (M, "TV.C11.split_track_property", "for a track having a feature `source`: split(track, source) succeeds; no cell equal to 1 -> empty; else the pieces are 0..size-1 once and in order, each but the last ending at a cell equal to 1 and holding no other, the last holding none"),
+        (M, "TV.C11.split_track_uid", "the same front end with a limit: the pieces of split_limit_filter with the uid numbers, on the markers read under the name"),
+        (M, "TV.C11.split_track_unknown", "outside the domain: an unknown name is AnalyticalFeatureError on a non-empty track, the empty collection on an empty one"),
+        (M, "TV.C11.segmentation_then_split", "segmentation(track, afs, out, ths, mode) then split(track, out): both succeed and the result is the split on the markers of the rows (the 1 / 0 column is read back under the same name with == 1), any kind of value"),
+        (M, "TV.C11.segmentation_then_split_val", "the same on numbers and ObsTime objects with Python's == 1 (1, 1.0, True are marked; NaN, other numbers, an ObsTime are not)"),
     ]
     partial = []
     open_statements = [
         "Track.length is an uninterpreted function of the piece in the limit theorems (that is what makes them cover NaN lengths); "
         "its float evaluation (sqrt, the order of the additions) is only in the driver (model run at Float) and the correspondence",
-        "split(track, <index list>) with unsorted / negative / out-of-range indices: modelled (Python indexing, IndexError) and run in the "
-        "correspondence, no theorem beyond extract_reversed_empty",
+        "Track.__getitem__ (track[name]: strip() of the key, a key holding one of + - / * ^ > < ( ) = ' { handed to the expression "
+        "evaluator of C02) is not on the call path of split() / segmentation(), which go through getObsAnalyticalFeature / "
+        "setObsAnalyticalFeature / createAnalyticalFeature; it is not modelled here: the model's lookup is by the exact string "
+        "(split_reads_named_column) and the correspondence runs names on which the two would differ",
         "a NaN threshold, thresholds_max = None, tuples as feature lists, an empty track (AnalyticalFeatureError) are outside the domain",
         "a number tested against an ObsTime threshold or the reverse (AttributeError unless the marker is already decided: `False and ...`, "
         "`True or ...`) is outside the domain: modelled (Val.le?, the evaluation order in foldCmpG), theorems marker_first_raises / "
@@ -260,7 +308,9 @@ class P(Prop):
         "at Float on TV.ObsTime.toAbsSec; values of other classes with their own __le__ / __ne__ (strings, user classes) are covered by "
         "marker_and_typed / marker_or_typed as hypotheses on the operators, not generated",
     ]
-    modelled = ("segmentation.split(track, <feature name>, limit) (begin / extract(begin, i) inclusive / begin moved before the limit test / "
+    modelled = ("segmentation.split(track, <feature name>, limit) as a whole: the marker read through getObsAnalyticalFeature(name, i) "
+                "(the six built-in names first, then the feature dictionary by the exact string), `== 1` by value (1, 1.0, True; not NaN, "
+                "not an ObsTime), AnalyticalFeatureError for an unknown name unless the track is empty; the loop (begin / extract(begin, i) inclusive / begin moved before the limit test / "
                 "the two limit tests `limit > 0 and length < limit` and `limit == 0 or (limit > 0 and length >= limit)` / tail when "
                 "begin != 0, the uid numbers count / begin / end of every piece), split(track, <index list>, limit), Track.extract (range(a, b+1) with Python list indexing, a > b gives an "
                 "empty track), Track.length (sum of 3D distances, at Float), TrackCollection.segmentation / split_segmentation, and "
@@ -271,7 +321,18 @@ class P(Prop):
                 "`v <= threshold` as Python operator calls on numbers and ObsTime objects (ObsTime.__ne__ / __le__ / __gt__ of core/obs_time.py, "
                 "the AttributeError of a number against an ObsTime, the evaluation order of `comp and (...)` / `comp or (...)`); "
                 "Track.getObsAnalyticalFeature for the built-in names x y z t timestamp idx")
-    rule = ("HISTORY: about half of the segmentation cases run on a track whose output feature already exists (left by a previous "
+    rule = ("NAMES: feature names are arbitrary strings (any but x y z t timestamp idx): the marker of split(), the tested and output "
+            "features of segmentation() (also through TrackCollection) are also given names that are not identifiers — reading like an "
+            "expression over OTHER features of the same track, which exist with per-observation values 0..3 / NaN (`speed-limit` next to "
+            "`speed` and `limit`, `a>=b`, `2*a`, `(a)`, `D{a}`, `a=b`), differing from another feature's name by surrounding blanks / tab / "
+            "newline (` a` next to `a`), holding separators, quotes, braces, brackets, non-ASCII letters, or looking like a number; every "
+            "marker vector n = 1..4 (6) x every such form; split() on a name the track does not have (outside the domain: run, not compared). "
+            "The oracle finds the marker cells in the case's own data by the exact name. Every split() case also runs on the model's "
+            "track (splitTrackU: the name looked up in the table, == 1 on the cell) and must agree with the loop on the marker vector; "
+            "every segmentation()+split() case runs segseqsplitv (split reading the written column back by name). "
+            "SESSIONS: every split() is called twice on the same track (the oracle judges the second result too when it differs); with a "
+            "previous segmentation() the track is also split on the earlier marker before the call under test. "
+            "HISTORY: about half of the segmentation cases run on a track whose output feature already exists (left by a previous "
             "segmentation() with other thresholds/mode, created by the user with 0/1/2/0.5/NaN values, or all 1s), or write the marker into one "
             "of the tested features; other features (incl. names like #mark, #0, marker, out), uid, tid, base vary; the model replays the whole "
             "sequence of calls on the feature table and the whole table is compared; the oracle is about the LAST call. "
@@ -319,6 +380,8 @@ class P(Prop):
                 "split(): all 2^n marker vectors for n = 1..%d x one observation without elevation (Z = NaN) at every position" % self.nmax_nan(tier),
                 "segmentation(): 1..3 tested features x AND/OR x every combination of {below, equal, above, NaN} per feature, "
                 "for 4 threshold vectors, as one track and as single-observation tracks",
+                "split(): all 2^n marker vectors for n = 1..%d x %d forms of marker-feature name that are not identifiers (expression-like over "
+                "the features a and b of the same track, surrounding blanks, separators, quotes, braces, digits)" % (4 if tier == "quick" else 6, len(EXOTIC)),
                 "segmentation(): 1..2 tested features, each numeric or ObsTime-valued (ObsTime threshold) x AND/OR x every combination "
                 "of {earlier/below, equal, later/above, NaN} per feature, as feature columns and with the built-in 'timestamp' first"]
 
@@ -365,6 +428,70 @@ class P(Prop):
             c["times"] = tm
         if rng.random() < 0.5:
             c["env"] = self.rand_env(rng)
+        return c
+
+    OPERANDS = ["speed", "limit", "a", "b", "v", "vmax", "f0", "f1", "s", "cut"]
+    OPVALS = ["0", "1", "1", "2", "2", "3", "3", "-1", "0.5", "nan"]
+
+    def rand_cols(self, rng, n, names):
+        return [[nm, [rng.choice(self.OPVALS) for _ in range(n)]] for nm in names]
+
+    def rand_splitn(self, rng):
+        """split() on a marker feature whose NAME is not an identifier: it reads like an expression over other features of
+        the same track (`speed-limit` next to `speed` and `limit`), differs from another feature's name by surrounding
+        blanks, holds separators / quotes / braces / non-ASCII characters, or looks like a number. Any string but the six
+        built-in names is a feature name for createAnalyticalFeature / getObsAnalyticalFeature."""
+        c = self.rand_splitg(rng)
+        c.pop("src", None)
+        n = len(c["vals"])
+        ops = rng.sample(self.OPERANDS, rng.randrange(1, 3))
+        c["cols"] = self.rand_cols(rng, n, ops)
+        if rng.random() < 0.4:
+            c["cols_after"] = True
+        c["mname"] = exotic_name(rng, ops + ([rng.choice(["x", "y", "z", "idx", "t"])] if rng.random() < 0.2 else []), taken=ops)
+        r = rng.random()
+        if r < 0.08:
+            c["src"] = rng.choice(ops)                    # split on the other feature: its own cells decide
+        elif r < 0.14:
+            c["src"] = rng.choice([c["mname"].strip(), c["mname"] + " ", "no such feature"]) or "no such feature"   # mostly unknown: outside the domain
+        return c
+
+    def name_grid(self, rng, nmax):
+        """all marker vectors n = 1..nmax x every exotic name form, the operand features `a` and `b` being present"""
+        out = []
+        for n in range(1, nmax + 1):
+            for bits in itertools.product("01", repeat=n):
+                for form in EXOTIC:
+                    out.append({"kind": "splitv", "vals": list(bits), "mname": form.format(a="a", b="b"),
+                                "cols": self.rand_cols(rng, n, ["a", "b"]), "cols_after": rng.random() < 0.5})
+        return out
+
+    def with_names(self, rng, case):
+        """variant of a seg case (as made by with_forms) whose tested features / output feature have exotic names"""
+        c = {k_: (list(v) if isinstance(v, list) else v) for k_, v in case.items()}
+        names = list(self.names(c))
+        n = len(c["rows"])
+        plain = [nm for nm in names if nm not in VIRTUAL and nm not in BUILTIN]
+        extra = rng.sample(self.OPERANDS, rng.randrange(0, 2))
+        extra = [nm for nm in extra if nm not in names]
+        operands = sorted(set(plain + extra + [nm for nm in names if nm in VIRTUAL or nm in ("t", "idx")])) or ["a"]
+        ren = {}
+        for nm in sorted(set(plain)):
+            if rng.random() < 0.5:
+                ren[nm] = exotic_name(rng, operands, taken=names + list(ren.values()))
+        names = [ren.get(nm, nm) for nm in names]
+        c["names"] = names
+        if c.get("outname") in ren:
+            c["outname"] = ren[c["outname"]]
+        elif not c.get("outname") and rng.random() < 0.7:
+            c["outname"] = exotic_name(rng, operands + names, taken=names + extra)
+        if extra:
+            c["cols"] = self.rand_cols(rng, n, extra)
+            c["cols_after"] = rng.random() < 0.5
+        if len(names) != 1:
+            c.pop("afs_form", None)
+        c.pop("scalar", None)
+        c["split"] = True
         return c
 
     def rand_splitidx(self, rng):
@@ -544,6 +671,9 @@ class P(Prop):
             out.append(self.rand_splitg(rng))
         for _ in range(6 if quick else 60):
             out.append(self.rand_splitg(rng, long=True))
+        out += self.name_grid(rng, 4 if quick else 6)
+        for _ in range(1200 if quick else 40000):
+            out.append(self.rand_splitn(rng))
         for _ in range(400 if quick else 15000):
             out.append(self.rand_splitidx(rng))
         # grids
@@ -585,9 +715,13 @@ class P(Prop):
                 out.append(self.with_history(rng, c, pool))
             if rng.random() < 0.5:
                 out.append(self.with_forms(rng, c))
+            if nth >= k and rng.random() < 0.4:
+                out.append(self.with_names(rng, self.with_forms(rng, c)))
         out += self.kind_grid(rng)
         for _ in range(1500 if quick else 40000):
             out.append(self.rand_segb(rng))
+            if rng.random() < 0.25 and self.in_domain(out[-1]):
+                out.append(self.with_names(rng, out[-1]))
         for _ in range(300 if quick else 12000):
             k = rng.randrange(1, 3)
             ths = [ratstr(rng.choice(pool)) for _ in range(k + (1 if rng.random() < 0.2 else 0))]
@@ -598,6 +732,13 @@ class P(Prop):
                 hi = rng.random() < 0.25            # a track on which nothing exceeds: it must contribute no piece
                 tracks.append([["nan" if rng.random() < pn else ratstr(Fraction(-50) if hi else rng.choice(pool)) for _ in range(k)] for _ in range(n)])
             out.append({"kind": "coll", "mode": rng.choice(["and", "or", "default"]), "ths": ths, "tracks": tracks})
+            if rng.random() < 0.3:       # tested / output features with names that are not identifiers
+                nms = ["f%d" % j for j in range(k)]
+                for j in range(k):
+                    if rng.random() < 0.6:
+                        nms[j] = exotic_name(rng, ["f%d" % i for i in range(k)], taken=nms)
+                out[-1]["names"] = nms
+                out[-1]["outname"] = exotic_name(rng, nms, taken=nms)
         return out
 
     TEMP_NAMES = ["#mark", "#0", "#1", "marker", "out", "tag2", "comp", "idx2", "seuil_max"]
@@ -692,6 +833,8 @@ class P(Prop):
             return all(v == "nan" or kind(v) == kind(case["ths"][j]) for r in self.eff_rows(case) for j, v in enumerate(r))
         if case["kind"] == "coll":
             return len(case["ths"]) >= len(case["tracks"][0][0])
+        if case["kind"] in ("split", "splitv", "splitg"):
+            return self.marks(case) is not None      # split() on a name the track does not have: no claim
         return True
 
     def describe(self, case):
@@ -701,6 +844,12 @@ class P(Prop):
             m = case["m"]
             t["n"] = len(m)
             t["shape"] = ("none" if "1" not in m else "") + ("first" if m[0] == "1" else "") + ("last" if m[-1] == "1" else "") + ("adjacent" if "11" in m else "")
+        if k in ("split", "splitv", "splitg"):
+            src = self.source(case)
+            if enc(src) != src:
+                t["names"] = "exotic"
+            if self.marks(case) is None:
+                t["domain"] = "unknown-name"
         if k in ("splitg", "splitidx"):
             lim = case.get("limit", "default")
             t["limit"] = "0" if lim in ("default", "0", "0.0") else ">0"
@@ -710,7 +859,9 @@ class P(Prop):
             t["mode"] = case["mode"]
             t["features"] = len(case["rows"][0])
             t["domain"] = "in" if len(case["ths"]) >= len(case["rows"][0]) else "fewer-thresholds"
-            t["history"] = (case["pre"]["type"] if case.get("pre") else "out=" + case["outname"][:1] if case.get("outname") else "fresh")
+            t["history"] = (case["pre"]["type"] if case.get("pre") else "out=tested" if case.get("outname") in self.names(case) else "fresh")
+            if any(enc(nm) != nm for nm in self.names(case) + [case.get("outname", "out")]):
+                t["names"] = "exotic"
             afs, ths = self.forms(case)
             t["forms"] = afs + "/" + ths
             if any(nm in VIRTUAL for nm in self.names(case)):
@@ -727,6 +878,8 @@ class P(Prop):
                 t["infinite"] = "yes"
         if k == "coll":
             t["tracks"] = len(case["tracks"])
+            if case.get("names"):
+                t["names"] = "exotic"
         if case.get("env"):
             t["env"] = "+".join(sorted(k_ for k_ in case["env"] if k_ != "extra_after"))
         return t
@@ -736,7 +889,7 @@ class P(Prop):
         if k == "split":
             return len(case["m"]) >= 2 and "1" in case["m"]
         if k in ("splitv", "splitg"):
-            return any(self.marks(case))
+            return any(self.marks(case) or [])
         if k == "splitidx":
             return len(case["idx"]) >= 2
         if k == "coll":
@@ -813,10 +966,17 @@ class P(Prop):
         k = case["kind"]
         if not env.get("extra_after"):
             extras()
+
+        def cols():          # other features with one value per observation (the operands an exotic name seems to mention)
+            for nm, toks in case.get("cols") or []:
+                put(nm, toks)
+        if not case.get("cols_after"):
+            cols()
         if k in ("split", "splitv", "splitg"):
-            put("marker", list(case["m"]) if k == "split" else case["vals"])
+            mname = case.get("mname", "marker")
+            put(mname, list(case["m"]) if k == "split" else case["vals"])
             if env.get("extra_after"):
-                extras("marker")
+                extras(mname)
         elif k == "seg":
             outname = case.get("outname", "out")
             for j, nm in enumerate(self.names(case)):
@@ -824,6 +984,9 @@ class P(Prop):
                     put(nm, [r[j] for r in case["rows"]])
             if env.get("extra_after"):
                 extras(outname)
+        if case.get("cols_after"):
+            cols()
+        if k == "seg":
             pre = case.get("pre")
             if pre and pre["type"] == "vals":
                 put(outname, pre["vals"])
@@ -886,7 +1049,14 @@ class P(Prop):
         pieces, uids, content = self.pieces_of(coll, names, snap)
         if content is None and self.snapshot(t) != (names, snap):
             content = "split() modified the source track"
-        return {"pieces": pieces, "uids": uids, "content": content}
+        out = {"pieces": pieces, "uids": uids, "content": content}
+        # the same call once more on the same track (state left by the first call on the track, its observations or the
+        # module): the statement holds for every call, so the oracle is run on the second result too when it differs
+        coll2 = self.S.split(t, source) if limit == "default" else self.S.split(t, source, limval(limit))
+        pieces2, _u, content2 = self.pieces_of(coll2, names, snap)
+        if pieces2 != pieces or content2 != content:
+            out["again"] = {"pieces": pieces2, "content": content2}
+        return out
 
     # ---------------------------------------------------------------- implementation
     def mode_const(self, m):
@@ -897,7 +1067,7 @@ class P(Prop):
         if k in ("split", "splitv", "splitg"):
             n = len(case["m"]) if k == "split" else len(case["vals"])
             t = self.make_track(case, n)
-            return self.split_and_read(t, case.get("src", "marker"), case.get("limit", "default"))
+            return self.split_and_read(t, self.source(case), case.get("limit", "default"))
         if k == "splitidx":
             t = self.make_track(case, len(case["pts"]))
             return self.split_and_read(t, list(case["idx"]), case.get("limit", "default"))
@@ -910,6 +1080,8 @@ class P(Prop):
             pre = case.get("pre")
             if pre and pre["type"] == "seg":
                 self.S.segmentation(t, names, outname, [tokval(x) if istime(x) else fval(x) for x in pre["ths"]], self.mode_const(pre["mode"]))
+                if case.get("split"):
+                    self.S.split(t, outname)        # a split() on the earlier marker, result dropped: it must leave nothing behind
             afs_form, ths_form = self.forms(case)
             self.S.segmentation(t, names[0] if afs_form == "str" else names, outname,
                                 ths[0] if ths_form == "scalar" else ths, self.mode_const(case["mode"]))
@@ -921,25 +1093,26 @@ class P(Prop):
             return out
         if k == "coll":
             tracks, off = [], 0
+            names = case.get("names") or ["f%d" % j for j in range(len(case["tracks"][0][0]))]
+            outname = case.get("outname", "out")
             for rows in case["tracks"]:
-                tracks.append(self.make_track({"kind": "seg", "rows": rows}, len(rows), off))
+                tracks.append(self.make_track({"kind": "seg", "rows": rows, "names": names}, len(rows), off))
                 off += len(rows)
             coll = self.TC(tracks)
-            names = ["f%d" % j for j in range(len(case["tracks"][0][0]))]
             ths = [fval(x) for x in case["ths"]]
             if case["mode"] == "default":
-                coll.segmentation(names, "out", ths)
+                coll.segmentation(names, outname, ths)
             else:
-                coll.segmentation(names, "out", ths, self.mode_const(case["mode"]))
+                coll.segmentation(names, outname, ths, self.mode_const(case["mode"]))
             marks = []
             allnames, allsnap = None, []
             for t in tracks:
-                mk = [t.getObsAnalyticalFeature("out", i) for i in range(t.size())]
+                mk = [t.getObsAnalyticalFeature(outname, i) for i in range(t.size())]
                 marks.append("".join("1" if v == 1 else "0" if v == 0 else "?" for v in mk))
                 nm, sn = self.snapshot(t)
                 allnames = nm
                 allsnap += sn
-            res = coll.split_segmentation("out")
+            res = coll.split_segmentation(outname)
             pieces, uids, content = self.pieces_of(res, allnames, allsnap)
             if content is None and coll.size() != len(tracks):
                 content = "split_segmentation() changed the collection it was called on"
@@ -947,19 +1120,28 @@ class P(Prop):
         raise ValueError(k)
 
     # ---------------------------------------------------------------- model
+    @staticmethod
+    def source(case):
+        """the feature name handed to split(): the name of the marker feature unless the case says otherwise"""
+        return case.get("src", case.get("mname", "marker"))
+
     def marks(self, case):
-        if case["kind"] == "split":
-            return [c == "1" for c in case["m"]]
-        src = case.get("src", "marker")
+        """which observations are marked: the cells of the feature called `source` that equal 1 (the case's own data,
+        looked up by the exact name); None when the track has no feature of that name"""
+        n = len(case["m"]) if case["kind"] == "split" else len(case["vals"])
+        src = self.source(case)
         if src in VIRTUAL:          # the marker is a virtual feature: a coordinate equal to 1
-            return [coord(p[VIRTUAL.index(src)]) == 1 for p in case["pts"]]
+            return [coord(p[VIRTUAL.index(src)]) == 1 for p in self.points(case, n)]
         if src == "idx":
-            return [i == 1 for i in range(len(case["vals"]))]
+            return [i == 1 for i in range(n)]
         if src == "t":              # toAbsTime() == 1
-            return [m == 1000 for m in self.times_ms(case, len(case["vals"]))]
+            return [m == 1000 for m in self.times_ms(case, n)]
         if src == "timestamp":      # an ObsTime is never equal to 1
-            return [False] * len(case["vals"])
-        return [VALS[v] == 1 for v in case["vals"]]
+            return [False] * n
+        col = dict((nm, toks) for nm, toks in self.table(case, n)).get(src)
+        if col is None:
+            return None
+        return [bool(tokval(v) == 1) for v in col]
 
     @staticmethod
     def pts_tok(pts):
@@ -972,15 +1154,26 @@ class P(Prop):
 
     @staticmethod
     def table_tok(tab):
-        return ";".join("%s=%s" % (nm, ",".join(valtok(tokval(x)) for x in toks) or "_") for nm, toks in tab) or "_"
+        return ";".join("%s=%s" % (enc(nm), ",".join(valtok(tokval(x)) for x in toks) or "_") for nm, toks in tab) or "_"
 
     def requests(self, case):
         k = case["kind"]
-        if k in ("split", "splitv"):
-            return ["C11.split " + ("".join("1" if b else "0" for b in self.marks(case)) or "_")]
-        if k == "splitg":
-            return ["C11.splitlim %s %s %s" % (self.limit_tok(case), "".join("1" if b else "0" for b in self.marks(case)) or "_",
-                                               self.pts_tok(case["pts"]))]
+        if k in ("split", "splitv", "splitg"):
+            # (a) the loop of split() on the marker vector worked out by the harness from the case's data;
+            # (b) the whole call on the model's track: the model looks the name up in the feature table and tests `== 1`
+            n = len(case["m"]) if k == "split" else len(case["vals"])
+            mk = self.marks(case)
+            pts = self.points(case, n)
+            xyz = ["%s=%s" % (v, ",".join(valtok(coord(p[c])) for p in pts) or "_") for c, v in enumerate(VIRTUAL)]
+            stamps = ",".join(mtok(x) for x in self.builtin_col(case, "timestamp", n)) or "_"
+            byname = "C11.splitname %s %s %s %s %s %s" % (self.limit_tok(case), enc(self.source(case)), ";".join(xyz), stamps,
+                                                          self.table_tok(self.table(case, n)), self.pts_tok(pts))
+            if mk is None:
+                return [byname]
+            mks = "".join("1" if b else "0" for b in mk) or "_"
+            if k == "splitg":
+                return ["C11.splitlim %s %s %s" % (self.limit_tok(case), mks, self.pts_tok(pts)), byname]
+            return ["C11.split " + mks, byname]
         if k == "splitidx":
             return ["C11.splitidx %s %s %s" % (self.limit_tok(case), ",".join(str(i) for i in case["idx"]) or "_", self.pts_tok(case["pts"]))]
         if k == "coll":
@@ -1002,15 +1195,17 @@ class P(Prop):
         stamps = ",".join(mtok(x) for x in self.builtin_col(case, "timestamp", n)) or "_"
         calls = []
         pre = case.get("pre")
+        enames = [enc(nm) for nm in names]
         if pre and pre["type"] == "seg":
-            calls += [pre["mode"], "l:" + ",".join(names), outname, "l:" + (",".join(mtok(x) for x in pre["ths"]) or "_")]
+            calls += [pre["mode"], "l:" + ",".join(enames), enc(outname), "l:" + (",".join(mtok(x) for x in pre["ths"]) or "_")]
         afs_form, ths_form = self.forms(case)
-        calls += [case["mode"], ("s:" + names[0]) if afs_form == "str" else "l:" + ",".join(names), outname,
+        calls += [case["mode"], ("s:" + enames[0]) if afs_form == "str" else "l:" + ",".join(enames), enc(outname),
                   ("s:" + mtok(case["ths"][0])) if ths_form == "scalar" else "l:" + ths]
         tab = self.table_tok(self.table(case, n))
-        # the operator-call model (values: numbers or ObsTime objects) ...
+        # the operator-call model (values: numbers or ObsTime objects): the loops on the rows worked out by the harness, and the
+        # whole sequence of calls on the model's track (with split(): the marker is read back from the table by its name) ...
         lines = ["C11.%sv %s %s %s" % (cmd, case["mode"], ths, rows),
-                 "C11.segseqv %s %s %s %s" % (";".join(xyz), stamps, tab, " ".join(calls))]
+                 "C11.%s %s %s %s %s" % ("segseqsplitv" if case.get("split") else "segseqv", ";".join(xyz), stamps, tab, " ".join(calls))]
         # ... and, when every value in sight is a number, the numeric model as well: the two must answer the same
         if self.numeric(case):
             lines += ["C11.%s %s %s %s" % (cmd, case["mode"], ths, rows),
@@ -1031,10 +1226,23 @@ class P(Prop):
         for r in replies:
             if r == "bad-request":
                 raise ValueError("bad-request")
-        if k == "seg" and len(replies) == 4:
-            if replies[2:] != replies[:2]:
-                raise ValueError("model: the numeric model answers %s, the operator-call model %s" % (replies[2:], replies[:2]))
-            replies = replies[:2]
+        if k == "seg":
+            replies = list(replies)
+            if case.get("split") and " " in replies[1]:
+                # `<table> <pieces>`: the pieces of split() reading the marker back from the table by name must be those of
+                # split() on the marker vector of the rows
+                tab, pc = replies[1].split(" ")
+                if " " not in replies[0] or replies[0].split(" ")[1] != pc:
+                    raise ValueError("model: split() on the table by name gives %s, on the markers %s" % (pc, replies[0]))
+                replies[1] = tab
+            if len(replies) == 4:
+                if replies[2:] != replies[:2]:
+                    raise ValueError("model: the numeric model answers %s, the operator-call model %s" % (replies[2:], replies[:2]))
+                replies = replies[:2]
+        if k in ("split", "splitv", "splitg") and len(replies) == 2:
+            if replies[0] != replies[1]:
+                raise ValueError("model: split() reading the marker by name answers %s, the loop on the marker vector %s" % (replies[1], replies[0]))
+            replies = replies[:1]
         for r in replies:
             if r.startswith("err:"):
                 return {"err": r}
@@ -1089,6 +1297,14 @@ class P(Prop):
 
     # ---------------------------------------------------------------- oracle (transfer)
     def spec(self, case, out):
+        e = self.spec1(case, out)
+        if e is None and isinstance(out, dict) and out.get("again"):
+            e = self.spec1(case, dict(out, pieces=out["again"]["pieces"], content=out["again"]["content"], again=None))
+            if e:
+                return "second split() of the same track: " + e
+        return e
+
+    def spec1(self, case, out):
         if not self.in_domain(case):
             return None
         k = case["kind"]
@@ -1164,15 +1380,26 @@ class P(Prop):
             v = case["vals"]
             for i in range(len(v)):
                 if len(v) > 1:
-                    yield {"kind": "splitv", "vals": v[:i] + v[i + 1:]}
+                    c = dict(case, vals=v[:i] + v[i + 1:])
+                    if case.get("cols"):
+                        c["cols"] = [[nm, toks[:i] + toks[i + 1:]] for nm, toks in case["cols"]]
+                    yield c
+            for key in ("env", "cols"):
+                if case.get(key):
+                    yield {k_: v_ for k_, v_ in case.items() if k_ != key}
         elif k in ("splitg", "splitidx"):
             for key in ("env", "times"):
                 if case.get(key):
                     yield {k_: v for k_, v in case.items() if k_ != key}
             n = len(case["pts"])
+            if case.get("cols"):
+                for j in range(len(case["cols"])):
+                    yield dict(case, cols=case["cols"][:j] + case["cols"][j + 1:])
             for i in range(n):
                 if n > 1:
                     c = dict(case, pts=case["pts"][:i] + case["pts"][i + 1:])
+                    if case.get("cols"):
+                        c["cols"] = [[nm, toks[:i] + toks[i + 1:]] for nm, toks in case["cols"]]
                     if k == "splitg":
                         c["vals"] = case["vals"][:i] + case["vals"][i + 1:]
                     else:
@@ -1205,7 +1432,7 @@ class P(Prop):
                         yield dict(case, tracks=tr[:i] + [tr[i][:j] + tr[i][j + 1:]] + tr[i + 1:])
         else:
             rows = case["rows"]
-            for key in ("env", "times", "pts"):
+            for key in ("env", "times", "pts", "cols"):
                 if case.get(key):
                     yield {k_: v for k_, v in case.items() if k_ != key}
             if case.get("names") and not case.get("outname") and not any(nm in BUILTIN for nm in case["names"]):
@@ -1221,6 +1448,8 @@ class P(Prop):
                     for key in ("times", "pts", "tms"):
                         if case.get(key):
                             c2[key] = case[key][:i] + case[key][i + 1:]
+                    if case.get("cols"):
+                        c2["cols"] = [[nm, toks[:i] + toks[i + 1:]] for nm, toks in case["cols"]]
                     yield c2
             kf = len(rows[0])
             if kf > 1 and len(case["ths"]) >= kf and not case.get("pre") and not case.get("outname"):
@@ -1251,3 +1480,12 @@ class P(Prop):
         elif k == "seg":
             for mode in ("and", "or"):
                 yield dict(case, mode=mode)
+            if self.in_domain(case) and case["rows"]:
+                for _ in range(3):
+                    yield self.with_names(rng, dict(case, names=list(self.names(case))))
+        if k in ("split", "splitv", "splitg") and "src" not in case:
+            # the same marker under a name that is not an identifier, next to the features the name seems to mention
+            n = len(case["m"]) if k == "split" else len(case["vals"])
+            for _ in range(4):
+                ops = rng.sample(self.OPERANDS, 2)
+                yield dict(case, mname=exotic_name(rng, ops, taken=ops), cols=self.rand_cols(rng, n, ops))
